@@ -52,6 +52,12 @@ impl<R: Read + Seek> ReadBox<&mut R> for EdtsBox {
 
         let mut edts = EdtsBox::new();
 
+        if size <= HEADER_SIZE {
+            // an empty edit box (what EdtsBox::new() writes): no child to read
+            skip_bytes_to(reader, start + size)?;
+            return Ok(edts);
+        }
+
         let header = BoxHeader::read(reader)?;
         let BoxHeader { name, size: s } = header;
         if s > size || s < HEADER_SIZE {
